@@ -38,6 +38,12 @@ def gen_fn(rng):
     return gen.gen_system(rng, phases=0.15, p_rail=0.15, p_neg_src_rs=0.05, p_group=rng.choice([0.0, 0.0, 0.3]), p_rename=0.1, p_oddnames=0.15)
 
 
+def _gen_with_scripts(rng):
+    if rng.random() < 0.06:
+        return gen.zero_vs_omitted(rng)
+    return gen_fn(rng)
+
+
 def solve_kw(rng):
     if rng.random() < 0.8:
         return {"vtol": 1e-10, "itol": 1e-10}
@@ -109,7 +115,7 @@ def per_case(ctx, desc, obs, model, sys_, df, kw):
 
 def run(ctx):
     solved.run_witnesses(ctx, per_case)
-    solved.run_cases(ctx, ctx.n(250, 6000), gen_fn, per_case, solve_kw)
+    solved.run_cases(ctx, ctx.n(250, 6000), _gen_with_scripts, per_case, solve_kw)
 
 
 def search(ctx):
